@@ -24,12 +24,13 @@ def make_pool(hszinc):
         {'id': 0, 'v': 9},                      # 9 falsy int id
         {'id': '', 'v': 10},                    # 10 empty-string id
         {'id': 5.0, 'v': 11},                   # 11 float id: equal to the int id 5 of row 2, but another id ('5.0' vs '5')
+        {'v': 2},                               # 12 equal to row 1, another object: remove / index / count / in go by equality
     ]
 
 
 def row_kind(i):
     return {0: 'str-id', 1: 'no-id', 2: 'int-id', 3: 'ref-id', 4: 'dup-id', 5: 'non-dict', 6: 'str-id',
-            7: 'refdis-id', 8: 'v3-cell', 9: 'zero-id', 10: 'empty-id', 11: 'float-id'}[i]
+            7: 'refdis-id', 8: 'v3-cell', 9: 'zero-id', 10: 'empty-id', 11: 'float-id', 12: 'equal-twin'}[i]
 
 
 def new_grid(hszinc, version=None):
